@@ -365,10 +365,13 @@ func Exp2(d Decimal) Decimal {
 				}
 			}
 
+			// Drop single digits until the value fits 192 bits: dividing by
+			// 1e19 could leave as few as 130 significant bits, less than the
+			// working precision needs.
 			for sigInt256[3] > 0 {
 				var rem uint64
-				sigInt256, rem = sigInt256.div1e19()
-				expInt += 19
+				sigInt256, rem = sigInt256.div10()
+				expInt++
 
 				if rem != 0 {
 					trunc = 1
